@@ -474,20 +474,29 @@ def render_fragment(rng, g, nodes, desc, start=None, opts=None):
     return dict(text=text, atoms=pre, tokens=tokens, start=start)
 
 
-def with_explicit_hydrogens(rng, g, tokens, p=0.4, annotations=('w=0.5', '0.2', 'note=a')):
-    """text of a rendered fragment in which some hydrogens of atoms written without brackets are spelled out as
-    '([H])' / '([H;w=0.5])' right behind their atom (and its ring digits / descriptors)"""
+def explicit_hydrogen_tokens(rng, g, tokens, p=0.4, spellings=('[H]', '[H]', '[2H]', '[H;w=0.5]', '[H;0.2]', '[H;note=a]'), skip=()):
+    """token list of a rendered fragment in which some hydrogens of atoms written without brackets are spelled out as
+    '([H])' / '([2H])' / '([H;w=0.5])' right behind their atom (and its ring digits / descriptors); atoms in `skip` get none"""
     out, k = [], 0
     while k < len(tokens):
         t = tokens[k]
         out.append(t)
         k += 1
-        if t[0] == 'atom' and not t[1].startswith('[') and g.nodes[t[2]]['hcount'] >= 1 and not g.nodes[t[2]].get('aromatic') and rng.random() < p:
+        if (t[0] == 'atom' and not t[1].startswith('[') and t[2] not in skip and g.nodes[t[2]]['hcount'] >= 1
+                and not g.nodes[t[2]].get('aromatic') and not g.nodes[t[2]].get('lower') and rng.random() < p):
             while k < len(tokens) and tokens[k][0] in ('ring', 'desc') and tokens[k][2] == t[2]:
                 out.append(tokens[k])
                 k += 1
-            out += [('open',), ('atom', '[H;%s]' % rng.choice(annotations) if rng.random() < 0.5 else '[H]', ('H', t[2])), ('close',)]
-    return ''.join('(' if x[0] == 'open' else ')' if x[0] == 'close' else x[1] for x in out)
+            out += [('open',), ('atom', rng.choice(spellings), ('H', t[2])), ('close',)]
+    return out
+
+
+def tokens_text(tokens):
+    return ''.join('(' if x[0] == 'open' else ')' if x[0] == 'close' else x[1] for x in tokens)
+
+
+def with_explicit_hydrogens(rng, g, tokens, p=0.4, annotations=('w=0.5', '0.2', 'note=a')):
+    return tokens_text(explicit_hydrogen_tokens(rng, g, tokens, p, spellings=('[H]',) * 3 + tuple('[H;%s]' % a for a in annotations)))
 
 
 def clean_text(tokens):
@@ -715,6 +724,7 @@ CG_NAMES = ['A', 'B', 'C', 'TC5', 'SP1', 'Na', 'X2', 'Q']
 
 
 def gen_coarse_graph(rng, n, p_ring=0.3, names=CG_NAMES, orders=(1, 1, 1, 1, 2, 3)):
+    p_ring = p_ring if rng.random() < 0.8 else 0.9       # now and then ring-rich bead graphs: beads that open several rings
     g = nx.Graph()
     for i in range(n):
         g.add_node(i, name=rng.choice(names))
